@@ -191,9 +191,12 @@ def gen_case(cid, kinds, cfg, generic):
         named, tys = KINDS[kinds[vi]]
         return [cty(t) for fi, t in enumerate(tys) if fi not in fign.get(vi, ())]
 
+    # `#[try_into]` on some variants whitelists them (try_into.md: "With #[try_into] or #[try_into(ignore)] it's possible to indicate which
+    # variants you want"), wherever the attributed variants stand among ignored and un-attributed ones
+    tign = set(ign) | ({vi for vi in range(n) if vi not in cfg["enable_attr"]} if cfg.get("enable_attr") else set())
     targets = []
     for vi in range(n):
-        if vi in ign or not do_tryinto or vrefs:   # (with a variant-level selection the un-attributed variants are left undetermined by the docs)
+        if vi in tign or not do_tryinto or vrefs:   # (with a variant-level selection the un-attributed variants are left undetermined by the docs)
             continue
         t = tuple(conv_tys(vi))
         if t not in targets:
@@ -205,7 +208,7 @@ def gen_case(cid, kinds, cfg, generic):
         for i in range(n):
             named, tys = KINDS[kinds[i]]
             kept = [fi for fi in range(len(tys)) if fi not in fign.get(i, ())]
-            ok = (i not in ign) and tuple(conv_tys(i)) == t
+            ok = (i not in tign) and tuple(conv_tys(i)) == t
             if ok:
                 vals = ["%s(%d)" % (cty(tys[fi]), 100 + 10 * i + fi) for fi in kept]
                 if sel_owned:
@@ -244,7 +247,9 @@ def gen_case(cid, kinds, cfg, generic):
     # in order, and hand the original back for every other variant
     # (only where un-attributed variants certainly take part: an enabling attribute on SOME variants without an enum-level one makes the
     # derive opt-in, and the documentation does not say so for TryInto)
-    if do_tryinto and not generic and (sel or not (vrefs or cfg.get("enable_attr"))):
+    # (... and not where a VARIANT selects reference kinds of its own for TryInto: the documentation knows the selection at the enum only, and
+    # the kinds then differ per variant by construction)
+    if do_tryinto and not generic and not cfg.get("variant_owned") and (sel or not (vrefs or cfg.get("enable_attr"))):
         all_t = []
         for vi in range(n):
             if vi not in ign and tuple(conv_tys(vi)) not in all_t:
